@@ -206,3 +206,16 @@ def install() -> None:
 
 def real_now() -> float:
     return REAL.time()
+
+
+# A YAML loader whose implicit-resolver table is a private copy taken before any code under test is imported: the harness'
+# own judgement of what a YAML text MEANS must not depend on process-global state that the code under test may change.
+import yaml as _yaml
+
+
+class PristineLoader(_yaml.SafeLoader):
+    yaml_implicit_resolvers = {k: list(v) for k, v in _yaml.SafeLoader.yaml_implicit_resolvers.items()}
+
+
+def pristine_load(text: str):
+    return _yaml.load(text, Loader=PristineLoader)
